@@ -16,6 +16,7 @@ CHECK = {
         "runs": [
             {"name": "store", "run": "^TestC06_Store$", "checks": {"quick": 300, "thorough": 1500}, "shards": {"quick": 1, "thorough": 16}},
             # the in-range helper and its three call sites (package p_proto)
+            {"name": "conc", "run": "^TestC06_Conc$", "checks": {"quick": 60, "thorough": 400}, "shards": {"quick": 4, "thorough": 16}},
             {"name": "inrange", "package": "p_proto", "run": "^TestC06_InRange$", "checks": {"quick": 20000, "thorough": 300000}, "shards": {"quick": 1, "thorough": 16}},
             {"name": "boundary", "package": "p_proto", "run": "^TestC06_Boundary$", "checks": {"quick": 150, "thorough": 300}, "shards": {"quick": 1, "thorough": 8}, "rounds": {"quick": 1, "thorough": 4}, "shrink_exec": 300},
             {"name": "gossipsite", "package": "p_proto", "run": "^TestC06_GossipSite$", "checks": {"quick": 60, "thorough": 150}, "shards": {"quick": 4, "thorough": 16}, "rounds": {"quick": 1, "thorough": 3}},
@@ -41,5 +42,5 @@ CHECK = {
             "store refuses at distance == radius, see classes boundary:*)",
         ],
         "required_classes": {"quick": ["prune+refusal", "radius-shrank", "palindromic-distance", "BE/LE-disagree-vs-radius",
-                                       "probe:radius+0,le=false", "probe:radius-1,le=false", "probe:radius+1,le=false", "reopen", "prune-emptied-store-with-shrunk-radius", "gossip-site:byte-order-of-radius-matters", "gossip-site:covered-peer-chosen", "gossip-site:uncovered-peer-skipped"]},
+                                       "probe:radius+0,le=false", "probe:radius-1,le=false", "probe:radius+1,le=false", "reopen", "prune-emptied-store-with-shrunk-radius", "gossip-site:byte-order-of-radius-matters", "gossip-site:covered-peer-chosen", "gossip-site:uncovered-peer-skipped", "conc-round-shrank-the-radius-and-refused-puts"]},
     }
